@@ -381,8 +381,10 @@ def run_C01(ctx, E):
 
 def run_C03(ctx, E):
     # the specification side of C03 is GenbankFormat.tla (its theorem Read(Write(R)) = Expected(R) is model-checked by C01_MC)
-    stage_mc_only(ctx, E, "format", "C01_MC", "C01_MC.cfg", env={"OUTFILE": os.path.join(ctx.work, "unused.ndjson")})
-    stage_record_trace(ctx, E, "build", "C03_Trace", "C03_Trace.cfg", heap="16g", timeout=3000)
+    cases = os.path.join(ctx.work, "c03_records.ndjson")
+    stage_mc_only(ctx, E, "format", "C01_MC", "C01_MC.cfg", env={"OUTFILE": cases}, workers=1)
+    # every enumerated (record, layout) goes through Build as parsed image and as assembled structure, then random records
+    stage_record_trace(ctx, E, "build", "C03_Trace", "C03_Trace.cfg", heap="16g", timeout=3000, env={"C03_CASES": cases})
 
 
 def run_C15(ctx, E):
@@ -434,8 +436,8 @@ PROPS = {
                            "keyword blocks, definitions up to 2000 characters - TLC requires (i) its reader recovers the "
                            "record from Build's bytes (files up to 700 lines), (ii) Parse(Build(x)) = x in every field and "
                            "every Location structure, (iii) eight Builds are byte-identical",
-                level_note="trusted: TLC, community modules, the projection of poly.Sequence; there is no exhaustive S->I "
-                           "enumeration of records for this property (records are generated at random)",
+                level_note="trusted: TLC, community modules, the projection of poly.Sequence; the enumerated part is the 64 "
+                           "(record, layout) states of C01_MC, everything else is generated at random",
                 rule="I->S: one event per record (8 Builds + Parse each)"),
     "C01": dict(run=run_C01,
                 technique="TLC evaluation of an independent GenBank flat-file writer (layout styles) and reader "
